@@ -22,6 +22,8 @@ pub struct Case {
     pub tasks: Vec<TaskSpec>,
     /// task index per program instance (None = background), in declaration order
     pub prog_task: Vec<Option<usize>>,
+    /// per program instance: task that runs its FB member `fb` (None = the program has no FB member)
+    pub prog_fb: Vec<Option<usize>>,
     pub sv_init: Vec<bool>,
     /// (dt in ns before the cycle, values of the BOOL globals for this cycle)
     pub timeline: Vec<(i64, Vec<bool>)>,
@@ -55,6 +57,16 @@ pub fn gen_case(rng: &mut Rng, cycles: usize) -> Case {
             }
         })
         .collect();
+    let with_fbs = rng.chance(1, 3);
+    let prog_fb = (0..nprogs)
+        .map(|_| {
+            if with_fbs && rng.chance(1, 2) {
+                Some(rng.below(ntasks as u64) as usize)
+            } else {
+                None
+            }
+        })
+        .collect();
     let sv_init: Vec<bool> = (0..nsv).map(|_| rng.chance(1, 4)).collect();
     let dts = [0i64, 0, 1, 1, 2, 3, 5, 7, 10, 10, 25, 100];
     let mut cur = sv_init.clone();
@@ -76,6 +88,7 @@ pub fn gen_case(rng: &mut Rng, cycles: usize) -> Case {
     Case {
         tasks,
         prog_task,
+        prog_fb,
         sv_init,
         timeline,
     }
@@ -102,18 +115,32 @@ pub fn render_source(case: &Case) -> String {
         ));
     }
     for (p, t) in case.prog_task.iter().enumerate() {
+        let fb = match case.prog_fb[p] {
+            Some(ft) => format!(" (fb WITH T{ft})"),
+            None => String::new(),
+        };
         match t {
-            Some(t) => s.push_str(&format!("PROGRAM I{p} WITH T{t} : Prog{p};\n")),
-            None => s.push_str(&format!("PROGRAM I{p} : Prog{p};\n")),
+            Some(t) => s.push_str(&format!("PROGRAM I{p} WITH T{t} : Prog{p}{fb};\n")),
+            None => s.push_str(&format!("PROGRAM I{p} : Prog{p}{fb};\n")),
         }
     }
     s.push_str("END_CONFIGURATION\n\n");
+    let mut pous = String::new();
     for p in 0..case.prog_task.len() {
-        s.push_str(&format!(
-            "PROGRAM Prog{p}\nVAR_EXTERNAL\n    seq : DINT;\nEND_VAR\nVAR\n    stamp : DINT := 0;\nEND_VAR\nseq := seq + 1;\nstamp := seq;\nEND_PROGRAM\n\n"
+        let member = if case.prog_fb[p].is_some() {
+            pous.push_str(&format!(
+                "FUNCTION_BLOCK Fb{p}\nVAR_EXTERNAL\n    seq : DINT;\nEND_VAR\nVAR\n    stamp : DINT := 0;\nEND_VAR\nseq := seq + 1;\nstamp := seq;\nEND_FUNCTION_BLOCK\n\n"
+            ));
+            format!("    fb : Fb{p};\n")
+        } else {
+            String::new()
+        };
+        pous.push_str(&format!(
+            "PROGRAM Prog{p}\nVAR_EXTERNAL\n    seq : DINT;\nEND_VAR\nVAR\n    stamp : DINT := 0;\n{member}END_VAR\nseq := seq + 1;\nstamp := seq;\nEND_PROGRAM\n\n"
         ));
     }
-    s
+    // FUNCTION_BLOCKs first so that program types can refer to them
+    format!("{pous}{s}")
 }
 
 fn as_i64(v: Option<&Value>) -> i64 {
@@ -152,13 +179,21 @@ pub fn run_case(n: u64, case: &Case, out: &mut Out) -> Result<(), String> {
         return Err("configuration shape differs".into());
     }
     for (i, t) in case.tasks.iter().enumerate() {
-        let progs: Vec<usize> = case
+        let mut progs: Vec<usize> = case
             .prog_task
             .iter()
             .enumerate()
             .filter(|(_, pt)| **pt == Some(i))
             .map(|(p, _)| p)
             .collect();
+        // FB instances of the task run after its programs; unit id of program p's FB = nprogs + p
+        progs.extend(
+            case.prog_fb
+                .iter()
+                .enumerate()
+                .filter(|(_, ft)| **ft == Some(i))
+                .map(|(p, _)| nprogs + p),
+        );
         out.line(format!(
             "task {} {} {} {}",
             t.interval_ms * MS,
@@ -178,6 +213,20 @@ pub fn run_case(n: u64, case: &Case, out: &mut Out) -> Result<(), String> {
             other => panic!("program instance I{p}: {other:?}"),
         })
         .collect();
+    // unit ids: programs 0..nprogs, then the FB member of program p as nprogs + p
+    let mut units: Vec<(usize, trust_runtime::memory::InstanceId)> =
+        ids.iter().copied().enumerate().collect();
+    for (p, ft) in case.prog_fb.iter().enumerate() {
+        if ft.is_some() {
+            match h.runtime().storage().get_instance_var(ids[p], "fb") {
+                Some(Value::Instance(id)) => units.push((nprogs + p, *id)),
+                other => panic!("fb member of I{p}: {other:?}"),
+            }
+        }
+    }
+    if case.prog_fb.iter().any(|f| f.is_some()) {
+        out.count("cases_with_fb_tasks");
+    }
     let mut last_seq = 0i64;
     let mut nontrivial = false;
     for (dt, svs) in &case.timeline {
@@ -211,10 +260,9 @@ pub fn run_case(n: u64, case: &Case, out: &mut Out) -> Result<(), String> {
             }
         }
         let seq = as_i64(h.runtime().storage().get_global("seq"));
-        let mut stamped: Vec<(i64, usize)> = ids
+        let mut stamped: Vec<(i64, usize)> = units
             .iter()
-            .enumerate()
-            .map(|(p, id)| (as_i64(h.runtime().storage().get_instance_var(*id, "stamp")), p))
+            .map(|(u, id)| (as_i64(h.runtime().storage().get_instance_var(*id, "stamp")), *u))
             .filter(|(s, _)| *s > last_seq)
             .collect();
         stamped.sort();
